@@ -351,8 +351,13 @@ def sib9(ctx, pid):
                 witness={"rows": {k: str(v) for k, v in rrows.items()}})
     # validate_is_node: hashed children are exactly 32 bytes
     v = ctx.P.func("trie.validation:validate_is_node")
-    src = ast.unparse(v.node).replace(" ", "")
-    if "validate_length(sub_node,32)" in src:
+    okv = False
+    for lp in [n_ for n_ in walk_shallow(v.node) if isinstance(n_, ast.For) and isinstance(n_.target, ast.Name)]:
+        for c_ in ast.walk(lp):
+            if isinstance(c_, ast.Call) and ast.unparse(c_.func) == "validate_length" and len(c_.args) == 2 and isinstance(c_.args[0], ast.Name) \
+                    and c_.args[0].id == lp.target.id and isinstance(c_.args[1], ast.Constant) and c_.args[1].value == 32:
+                okv = True
+    if okv:
         ctx.ok("hash-length:validate_is_node", v.loc(), "hashed children of a branch must be 32 bytes", nontrivial=False)
     else:
         ctx.bad("hash-length:validate_is_node", v.loc(), "validate_is_node no longer requires 32-byte child hashes")
@@ -849,11 +854,17 @@ def route1(ctx, pid):
     split = {HEX + "._traverse_from", HEX + "._traverse", HEX + "._traverse_extension"}
     probs = []
     rows = {}
+    # the locals that receive the (node, residual key) pair of the traversal
+    nname = kname = None
+    for n_ in walk_shallow(g.node):
+        if isinstance(n_, ast.Assign) and isinstance(n_.value, ast.Call) and isinstance(n_.targets[0], ast.Tuple) and len(n_.targets[0].elts) == 2 \
+                and any(t.kind == "def" and t.func.name == "_traverse" for t in ctx.R.resolve_call(n_.value, g, count=False)):
+            nname, kname = (x.id if isinstance(x, ast.Name) else None for x in n_.targets[0].elts)
     for p, st in pq.states(ctx, g, split=split):
         if p.exit[0] != "return":
             continue
-        node = st.env.get("node")
-        rk = st.env.get("remaining_key")
+        node = st.env.get(nname)
+        rk = st.env.get(kname)
         ks = eng.kind_of(node, st.facts) if node is not None else ALLK
         r = st.ret
         kind = next(iter(ks)) if len(ks) == 1 else "/".join(sorted(ks))
